@@ -1,3 +1,4 @@
+mod cli;
 mod core;
 mod gval;
 mod known;
@@ -16,6 +17,8 @@ fn factory_for(id: &str) -> Option<(&'static str, Factory)> {
     Some(match id {
         "C02" => ("C02", |t| Box::new(props::c02::C02::new(t)) as Box<dyn Property>),
         "C03" => ("C03", |t| Box::new(props::c03::C03::new(t)) as Box<dyn Property>),
+        "C12" => ("C12", |t| Box::new(props::c12::C12::new(t)) as Box<dyn Property>),
+        "C04" => ("C04", |t| Box::new(props::c04::C04::new(t)) as Box<dyn Property>),
         "C11" => ("C11", |t| Box::new(props::c11::C11::new(t)) as Box<dyn Property>),
         _ => return None,
     })
